@@ -203,12 +203,14 @@ def _native_bed12(argform, exon_coords, cds_coords, tcoords, thick_mode="thick")
     arg = "t1" if argform == "id" else db["t1"]
     if thick_mode == "thin":
         return db.bed12(arg, thick_featuretype=None, thin_featuretype=["five_prime_UTR"])
+    if thick_mode == "neither":
+        return db.bed12(arg, thick_featuretype=None)
     return db.bed12(arg)
 
 
 def unit_bed12(U):
     for argform in ("feature", "id"):
-        for thick_mode in ("thick", "thin", "both"):
+        for thick_mode in ("thick", "thin", "both", "neither"):
             for name_present in (True, False):
                 if not U.thorough and not name_present and (thick_mode != "thick" or argform != "feature"):
                     continue
@@ -313,6 +315,8 @@ def unit_bed12(U):
                             goal = z3.BoolVal(True)
                     elif thick_mode == "neither":
                         goal = z3.BoolVal(False)
+                    if thick_mode == "neither" and ts is not None and te is not None:
+                        goal = z3.BoolVal(True)         # the statement fixes thickStart/thickEnd only when thick features are present
                     U.prove(base + ".thick#p%d" % p.index, "thickStart/thickEnd taken from the thick (resp. thin) features when present: first.start-1 .. last.end", p.pc, goal, vars_, replay=replay)
                     # children() was asked for the block types ordered by start
                     calls = st["calls"]
